@@ -95,6 +95,7 @@ impl Ctx {
     }
     pub fn io(&mut self, s: &IoStats) {
         self.fault("short_read", s.short_reads);
+        self.fault("short_read_scribbling_rest_of_buffer", s.scribbles);
         self.fault("interrupted_read", s.eintr);
         self.fault("hard_read_error", s.hard_errors);
         self.fault("seek_error", s.seek_errors);
